@@ -72,6 +72,43 @@ if not NATIVE:
             for kk, v in dict(*a, **k).items():
                 self[kk] = v
 
+    class SymKeySet(set):
+        """set whose members may be symbolic strings: membership is a solver-decided equality, no hashing (insertion ordered)"""
+
+        def __init__(self, it=()):
+            set.__init__(self)
+            self._it = []
+            for x in it:
+                self.add(x)
+
+        def _has(self, x):
+            for y in self._it:
+                if isinstance(x, str) and isinstance(y, str):
+                    if len(x) == len(y) and truth(f_eq(x, y)):
+                        return True
+                elif x is y or (not isinstance(x, str) and not isinstance(y, str) and bool(x == y)):
+                    return True
+            return False
+
+        def add(self, x):
+            if not self._has(x):
+                self._it.append(x)
+
+        def __contains__(self, x):
+            return self._has(x)
+
+        def __iter__(self):
+            return iter(list(self._it))
+
+        def __len__(self):
+            return len(self._it)
+
+        def __bool__(self):
+            return bool(self._it)
+
+        def discard(self, x):
+            self._it = [y for y in self._it if not (isinstance(x, str) and isinstance(y, str) and len(x) == len(y) and truth(f_eq(x, y))) and y is not x]
+
     class SBytes(object):
         """result of .encode() on a symbolic string; only carried into the hash stub"""
 
@@ -175,7 +212,7 @@ if not NATIVE:
         mods = {}
         for m in ("insights.cleaner", "insights.cleaner.ip", "insights.cleaner.mac", "insights.cleaner.hostname", "insights.cleaner.keyword",
                   "insights.cleaner.password", "insights.cleaner.pattern", "insights.cleaner.filters", "insights.util.posix_regex"):
-            mods[m] = {"strings": True, "names": {"dict": SymKeyDict}}
+            mods[m] = {"strings": True, "names": {"dict": SymKeyDict, "set": SymKeySet}}
         mods["insights.cleaner"] = {"strings": True, "order": True, "names": {}}
         instrument.install(mods)
         symops.ENCODE_HOOK[0] = lambda s: SBytes(s)
@@ -188,7 +225,7 @@ if not NATIVE:
 
     STUBS = ["socket.inet_aton/inet_ntoa + struct.pack/unpack in cleaner.ip: contract on canonical dotted quads (value = ((a*256+b)*256+c)*256+d)",
              "hashlib.sha1 in cleaner.ip/mac/hostname: uninterpreted function (same input -> same digest, new input -> fresh symbolic hex digits)",
-             "dict() in the cleaner modules: insertion-ordered mapping whose string keys are compared by the solver instead of hashed",
+             "dict() / set() in the cleaner modules: insertion-ordered containers whose string keys are compared by the solver instead of hashed",
              "re.* on symbolic lines is served by SymRe from the pattern strings found in the running modules"]
 
 
